@@ -344,6 +344,9 @@ func (r *Raft) onInstallSnapRequest(req *installSnapReq, c *conn) (rpcResult, er
 		}
 	}
 	if discardLog {
+		// the fsm goroutine reads committed entries through views of the log:
+		// whatever is queued for it has to be applied before the log goes away
+		_ = r.lastApplied()
 		if err = r.storage.clearLog(); err != nil {
 			return unexpectedErr, err
 		}
